@@ -172,45 +172,43 @@ func (i *Injector) injectSelfMonitor(cfg *config.Config) {
 		}})
 }
 
-func (i *Injector) marshal(cfg *config.Config) ([]byte, error) {
-	bTokens := make([]string, 0)
-	password := make([]string, 0)
+// sections of the source configuration that kvass does not rewrite; they may carry secrets
+var untouchedSections = []string{"alerting", "remote_write", "remote_read"}
 
-	for _, w := range cfg.RemoteWriteConfigs {
-		if w.HTTPClientConfig.BearerToken != "" {
-			bTokens = append(bTokens, string(w.HTTPClientConfig.BearerToken))
-		}
-
-		if w.HTTPClientConfig.BasicAuth != nil && w.HTTPClientConfig.BasicAuth.Password != "" {
-			password = append(password, string(w.HTTPClientConfig.BasicAuth.Password))
-		}
-
-	}
-
-	for _, w := range cfg.RemoteReadConfigs {
-		if w.HTTPClientConfig.BearerToken != "" {
-			bTokens = append(bTokens, string(w.HTTPClientConfig.BearerToken))
-		}
-
-		if w.HTTPClientConfig.BasicAuth != nil && w.HTTPClientConfig.BasicAuth.Password != "" {
-			password = append(password, string(w.HTTPClientConfig.BasicAuth.Password))
-		}
-	}
-
+func (i *Injector) marshal(cfg *config.Config, raw []byte) ([]byte, error) {
 	gen, err := yaml.Marshal(&cfg)
 	if err != nil {
 		return nil, errors.Wrapf(err, "marshal config failed")
 	}
 
-	data := string(gen)
-	for _, token := range bTokens {
-		data = strings.Replace(data, "bearer_token: <secret>", fmt.Sprintf("bearer_token: %s", token), 1)
+	// the typed marshaller prints every secret as "<secret>": the sections kvass does not rewrite are
+	// taken from the source configuration as they are, so that their secrets are preserved
+	genTree, rawTree := yaml.MapSlice{}, yaml.MapSlice{}
+	if err := yaml.Unmarshal(gen, &genTree); err != nil {
+		return nil, errors.Wrapf(err, "parse generated config failed")
+	}
+	if err := yaml.Unmarshal(raw, &rawTree); err != nil {
+		return nil, errors.Wrapf(err, "parse source config failed")
 	}
 
-	for _, pd := range password {
-		data = strings.Replace(data, "password: <secret>", fmt.Sprintf("password: %s", pd), 1)
+	for _, section := range untouchedSections {
+		for _, src := range rawTree {
+			if src.Key != section {
+				continue
+			}
+			found := false
+			for k := range genTree {
+				if genTree[k].Key == section {
+					genTree[k].Value = src.Value
+					found = true
+				}
+			}
+			if !found {
+				genTree = append(genTree, src)
+			}
+		}
 	}
-	return []byte(data), nil
+	return yaml.Marshal(genTree)
 }
 
 func (i *Injector) inject() (err error) {
@@ -234,7 +232,7 @@ func (i *Injector) inject() (err error) {
 	}
 	i.injectSelfMonitor(cfg)
 
-	data, err := i.marshal(cfg)
+	data, err := i.marshal(cfg, i.curCfg.RawContent)
 	if err != nil {
 		return errors.Wrapf(err, "marshal injected config")
 	}
